@@ -40,6 +40,7 @@ type OpProfile struct {
 	MaxRoots    int
 	Kind        ast.Operation
 	PArgsAlways bool // never omit optional arguments
+	ForceName   string // operation name to use (always sent as operationName)
 	Pool        int  // id pool size for node roots
 	IDStyle     int
 }
@@ -99,6 +100,9 @@ func GenOp(r *rand.Rand, s *ast.Schema, p OpProfile) *Op {
 		name = pick(r, []string{"Op", "Q1", "Main", "getIt"})
 		g.tag("op-name")
 	}
+	if p.ForceName != "" {
+		name = p.ForceName
+	}
 	var b strings.Builder
 	head := kw
 	if name != "" {
@@ -133,7 +137,7 @@ func GenOp(r *rand.Rand, s *ast.Schema, p OpProfile) *Op {
 		}
 		op.OperationName = name
 		g.tag("multi-op")
-	} else if name != "" && g.chance(0.5) {
+	} else if name != "" && (g.chance(0.5) || p.ForceName != "") {
 		op.OperationName = name
 	}
 	if len(g.vals) > 0 {
